@@ -1,5 +1,72 @@
-"""C12, file level: header reserved words, entry padding word, comment tails (via Tdf.__enter__). Filled in with the container machinery."""
+"""C12, file level: reserved header words, the padding word of table entries and whatever follows a comment's NUL,
+scrambled on whole files and read back through Tdf.__enter__ / get_block."""
+import os
+import shutil
+import tempfile
+
+import absval as A
+import container as C
+
+KIND_OF_TYPE = {v: k for k, v in A.BLOCKTYPE.items()}
+
+
+def observe(path):
+    from basictdf import Tdf
+    from basictdf.tdfBlock import BlockType
+    with Tdf(path) as t:
+        hdr = (int(t.version), int(t.nEntries), C.ts(t.creation_date), C.ts(t.last_modification_date), C.ts(t.last_access_date))
+        ents = [(e.type.value, int(e.format), int(e.offset), int(e.size), C.ts(e.creation_date), C.ts(e.last_modification_date),
+                 C.ts(e.last_access_date), e.comment) for e in t.entries]
+        blocks = {}
+        for e in t.entries:
+            if e.type.value in KIND_OF_TYPE:
+                blocks[e.type.value] = A.norm(A.absv(KIND_OF_TYPE[e.type.value], t.get_block(BlockType(e.type.value))))
+    return hdr, ents, blocks
 
 
 def run(ctx):
-    return
+    rng = ctx.rng
+    C.Clock.install()
+    d = tempfile.mkdtemp(prefix="vtdf")
+    try:
+        starts = []
+        for _ in range(ctx.n(25, 400)):
+            data, desc = C.start_file(rng, rng.choice(["n2", "n3", "n5", "n14", "fresh"]))
+            starts.append((data, desc))
+        if ctx.thorough:
+            import capture
+            starts.append((capture.raw(), "BTS capture"))
+        fcs = C.file_checks([s[0] for s in starts])
+        for k, ((data, desc), fc) in enumerate(zip(starts, fcs)):
+            rep = dict(file=desc, start=data.hex() if len(data) < 20000 else None)
+            if not fc["readable"]:
+                ctx.diff("file.check", f"model cannot read {desc}", rep)
+                continue
+            mask = fc["mask"]
+            ndc = sum(1 for m in mask if m == 0)
+            ctx.case(("file", desc, k), nontrivial=ndc > 0, tags=("file-header+table",), sample=dict(file=desc, dont_care_bytes=ndc, table_bytes=len(mask)))
+            p = os.path.join(d, f"f{k}.tdf")
+            open(p, "wb").write(data)
+            try:
+                base = observe(p)
+            except Exception as e:
+                ctx.fail(f"{desc}: file written by the independent writer cannot be read: {type(e).__name__}: {e}", rep, ident="file read")
+                continue
+            for style in (0, 1):
+                s = bytearray(data)
+                for i, m in enumerate(mask):
+                    if m == 0:
+                        s[i] = rng.choice([0x81, 0x8D, 0x8F, 0x90, 0x9D, 0xFF, 0x01]) if style == 0 else rng.randrange(256)
+                open(p, "wb").write(bytes(s))
+                try:
+                    got = observe(p)
+                except Exception as e:
+                    ctx.fail(f"{desc}: opening fails once reserved/padding/after-NUL bytes of header and table are changed: {type(e).__name__}: {str(e)[:80]}",
+                             dict(rep, style=style), ident="file dontcare raises")
+                    break
+                if got != base:
+                    what = "header" if got[0] != base[0] else ("table entries" if got[1] != base[1] else "block content")
+                    ctx.fail(f"{desc}: {what} read differently when only don't-care bytes of header/table change", dict(rep, style=style), ident=f"file dontcare changes {what}")
+                    break
+    finally:
+        shutil.rmtree(d, ignore_errors=True)
